@@ -551,11 +551,11 @@ def cls_of(argv, stream, kind=None):
     return (','.join(opts) or 'plain') + ('|T:' + ','.join(sorted(set(trans))) if trans else '')
 
 
-def model_replies(ctx, argvs, name='pipeline', chunk=120, workers=8):
+def model_replies(ctx, argvs, name='pipeline', chunk=120, workers=8, extra=()):
     """the driver's answers, in order; the requests are spread over several driver processes"""
     t0 = time.time()
     chunks = [argvs[i:i + chunk] for i in range(0, len(argvs), chunk)]
-    res = clirun.parallel([(lambda c=c: ctx.model.batch([cmd(name, a) for a in c], timeout=300)) for c in chunks], workers=workers)
+    res = clirun.parallel([(lambda c=c: ctx.model.batch([cmd(name, *(list(extra) + [a])) for a in c], timeout=300)) for c in chunks], workers=workers)
     reps = [r for part in res for r in part]
     return reps, time.time() - t0
 
@@ -609,19 +609,24 @@ def run_pipeline(ctx):
         c['chain'] = gen_chain(rng, maxlen=2)
         argv, kind = gen_malformed(rng, c)
         cases.append(dict(stream='malformed', case=None, argv=argv, kind=kind))
-    # not quiet: outside until the header model is used (still tallied)
-    for _ in range(10 if quick else 60):
-        c = gen_base(rng, small=True)
-        c['chain'] = gen_chain(rng, maxlen=1)
-        cases.append(dict(stream='valid', case=c, argv=render(rng, c, quiet=rng.choice([[], ['-v'], ['--verbose']])), verbose=True))
-
+    # without -q: the comment header is part of the bytes (sub-commands with a graph argument are outside then)
+    for i in range(150 if quick else 1500):
+        c = gen_base(rng, small=True) if i % 8 else gen_graph_base(rng, small=True)
+        c['chain'] = gen_chain(rng, maxlen=3)
+        cases.append(dict(stream='verbose', case=c, argv=render(rng, c, quiet=rng.choice([[], [], ['-v'], ['--verbose'], ['-v', '--verbose']])), verbose=True))
+    for t in TRANS0 + TRANS1:
+        c = dict(sub='and', args=[1, 1], chain=[(t, [] if t in TRANS0 else [1])] * 12)       # more than ten numbered entries
+        cases.append(dict(stream='verbose', case=c, argv=render(rng, c, quiet=[]), verbose=True))
+    for b in rng.sample(BIG, 2):
+        c = dict(sub='vdw', args=[3, b, 2], plain=True, chain=[])
+        cases.append(dict(stream='verbose', case=c, argv=render(rng, c, quiet=[]), verbose=True))
     # ---- the library side first: it tells which cases are too large
     keep = []
     for cs in cases:
         if cs['case'] is not None:
             try:
                 F = library_formula(cs['case'], cnfgen)
-                cs['lib'] = ('ok', library_text(F), F.number_of_variables(), len(F))
+                cs['lib'] = ('ok', library_text(F), F.number_of_variables(), len(F), ['c %s: %s' % kv for kv in F.header.items()])
             except TooBig:
                 ctx.tally('pipeline skipped', 'predicted too large')
                 continue
@@ -634,7 +639,9 @@ def run_pipeline(ctx):
     t_lib = time.time() - t_start
 
     # ---- the model
-    reps, t_model = model_replies(ctx, [cs['argv'] for cs in cases])
+    from cnfgen.info import info
+    version = str(info['version'])
+    reps, t_model = model_replies(ctx, [cs['argv'] for cs in cases], name='pipeline_env', extra=[version])
     for cs, m in zip(cases, reps):
         cs['model'] = m
         if lib.is_error(m):
@@ -658,7 +665,7 @@ def run_pipeline(ctx):
             ctx.tally('pipeline malformed kind', cs['kind'])
         if m[0] == 'outside':
             ctx.count('pipeline-' + stream, tuple(argv), nontrivial=False)
-            if cs['case'] is not None and not cs.get('verbose'):
+            if cs['case'] is not None and not (cs.get('verbose') and cs['case'].get('graph')):
                 # a command produced by the valid grammar must be inside the model's grammar
                 ctx.violation('correspondence', 'the pipeline model places a command of its own grammar outside it', dict(input=dict(argv=argv), theorem='pipeline_total'),
                               False, site=site_of(argv), cls='grammar')
@@ -672,8 +679,17 @@ def run_pipeline(ctx):
         lib_res = cs.get('lib')
         ok = tool_agrees(m, r)
         # three-way: the library call as well
+        body = r['out']
+        head_ok = True
+        if cs.get('verbose') and r['rc'] == 0:
+            lines = r['out'].split('\n')
+            comments = [ln for ln in lines if ln.startswith('c')]
+            body = '\n'.join(ln for ln in lines if not ln.startswith('c'))
+            # and / or / true / false have no library generator (the helper builds the formula and its description itself)
+            if lib_res is not None and lib_res[0] == 'ok' and not any('\n' in x or '\t' in x for x in argv) and cs['case']['sub'] not in ('and', 'or', 'true', 'false'):
+                head_ok = comments[:-2] == lib_res[4] and comments[-1:] == ['c'] and comments[-2:-1] == ['c command line: cnfgen ' + ' '.join(argv)]
         if ok and lib_res is not None:
-            if m[0] == 'out' and lib_res[0] == 'ok' and lib_res[1] != r['out']:
+            if m[0] == 'out' and lib_res[0] == 'ok' and (lib_res[1] != body or not head_ok):
                 ok = False
             if m[0] == 'out' and lib_res[0] != 'ok':
                 ok = False
@@ -689,8 +705,11 @@ def run_pipeline(ctx):
             ctx.violation('correspondence', 'the tool did not finish within the time limit on an input the model calls small', replay, False, site=site, cls='timeout')
         elif traceback:
             ctx.violation('counterexample', 'cnfgen ends in a Python traceback (%s)' % r['err'].strip().split('\n')[-1][:120], replay, True, site=site, cls=cl)
-        elif lib_res is not None and lib_res[0] == 'ok' and r['rc'] == 0 and r['out'] != lib_res[1]:
+        elif lib_res is not None and lib_res[0] == 'ok' and r['rc'] == 0 and body != lib_res[1]:
             ctx.violation('counterexample', 'the command line writes a formula that differs from the documented library call on the same numbers', replay, True, site=site, cls=cl)
+        elif lib_res is not None and lib_res[0] == 'ok' and r['rc'] == 0 and not head_ok:
+            ctx.violation('counterexample', 'the comment header written by the command line is not the header of the library formula followed by the command line', replay, True,
+                          site=site, cls='header|' + cl)
         elif lib_res is not None and lib_res[0] == 'ok' and r['rc'] != 0:
             ctx.violation('counterexample', 'the command line is rejected although the documented library call on the same numbers succeeds', replay, True, site=site, cls=cl)
         elif lib_res is not None and lib_res[0] == 'ValueError' and r['rc'] == 0:
@@ -713,7 +732,7 @@ def run_pipeline(ctx):
         if f['rc'] != r['rc'] or f['out'].decode('latin-1') != r['out']:
             ctx.violation('correspondence', 'fork server and fresh process differ', dict(input=dict(argv=cs['argv']), fresh_rc=f['rc'], fork_rc=r['rc']), False,
                           site='pipeline:harness', cls='fork-server')
-    small = [cs for cs in claimed if cs['model'][0] == 'out' and len(cs['model'][1]) < 4000 and not any(t in cs['argv'] for t in ('16', '17'))]
+    small = [cs for cs in claimed if cs['model'][0] == 'out' and not cs.get('verbose') and len(cs['model'][1]) < 4000 and not any(t in cs['argv'] for t in ('16', '17'))]
     rng.shuffle(small)
     small = small[:60 if quick else 600]
     ref, _ = model_replies(ctx, [cs['argv'] for cs in small], name='pipeline_ref')
